@@ -117,12 +117,18 @@ func zzBuild(path string) *bolt.DB {
 		return nil
 	})
 	zz.Assert(err == nil, "cli/build")
-	err = db.Update(func(tx *bolt.Tx) error { return tx.Bucket([]byte("b")).Delete([]byte("k3")) })
-	zz.Assert(err == nil, "cli/build2")
-	err = db.Update(func(tx *bolt.Tx) error {
-		return tx.Bucket([]byte("b")).Put([]byte{'k', zz.U8("symkey")}, zzVal(ps*3/10, 'S'))
-	})
-	zz.Assert(err == nil, "cli/build3")
+	// 0..2 further commits: varies the parity of the newest meta and which early pages got reused
+	extra := zz.Choose(3)
+	if extra >= 1 {
+		err = db.Update(func(tx *bolt.Tx) error { return tx.Bucket([]byte("b")).Delete([]byte("k3")) })
+		zz.Assert(err == nil, "cli/build2")
+	}
+	if extra >= 2 {
+		err = db.Update(func(tx *bolt.Tx) error {
+			return tx.Bucket([]byte("b")).Put([]byte{'k', zz.U8("symkey")}, zzVal(ps*3/10, 'S'))
+		})
+		zz.Assert(err == nil, "cli/build3")
+	}
 	return db
 }
 
